@@ -13,8 +13,9 @@ let str_ids l = String.concat "," (List.map string_of_int l)
 let ety_of = function Create -> 0 | Update -> 1 | Delete -> 2
 let ety_to = function 0 -> Create | 1 -> Update | 2 -> Delete | _ -> bad "etype"
 let str_evs l = String.concat "," (List.map (fun (t, i) -> Printf.sprintf "%d:%d" t i) l)
-let canon_events evs =
-  (List.filter (fun (t, _) -> t <> 2) evs, List.sort compare (List.filter (fun (t, _) -> t = 2) evs))
+(* one Refilter / sync batch lists the parent in map order: the events of a
+   batch are compared as a multiset *)
+let canon_events evs = List.sort compare evs
 
 let cmd_view fs objs ids =
   let fs = d_list d_filter fs and objs = d_list d_obj objs in
@@ -31,12 +32,12 @@ let cmd_fsub deferred f ops =
       match x with
       | L [op; L [rdy; ids; evs]] ->
         incr n;
-        let inp = match op with
-          | L [I 0; pl] -> FParentReady (d_list d_obj pl)
-          | L [I 1; f; pl] -> FRefilter (d_filter f, d_list d_obj pl)
-          | L [I 2; ty; o] -> FParentEvent { ev_ty = ety_to (d_int ty); ev_obj = d_obj o }
+        let (s1, mevs) = match op with
+          | L [I 0; pl] -> fs_step !st (FParentReady (d_list d_obj pl))
+          | L [I 1; f; pl] -> fs_step !st (FRefilter (d_filter f, d_list d_obj pl))
+          | L [I 2; ty; o] -> fs_step !st (FParentEvent { ev_ty = ety_to (d_int ty); ev_obj = d_obj o })
+          | L [I 3] -> (!st, [])        (* nothing reached the node: nothing may change *)
           | _ -> bad "fsub op" in
-        let (s1, mevs) = fs_step !st inp in
         st := s1;
         let iready = d_bool rdy in
         if iready <> s1.fs_ready then
